@@ -176,6 +176,11 @@ impl RtpsStatefulWriter {
         source_guid_prefix: GuidPrefix,
         message_writer: &(impl WriteMessage + ?Sized),
     ) {
+        // RTPS 8.3.7.10.3: a NACK_FRAG with a non-positive writerSN is invalid. The sequence number
+        // following it must also be representable for the GAP sent when the change is gone.
+        if nackfrag_submessage.writer_sn() <= 0 || nackfrag_submessage.writer_sn() == i64::MAX {
+            return;
+        }
         let reader_guid = Guid::new(source_guid_prefix, nackfrag_submessage.reader_id());
 
         if let Some(reader_proxy) = self
